@@ -8,7 +8,7 @@ let nmis = ref 0
 let ncmp = ref 0
 let nnz = ref 0
 
-let compare_block r (what : string) (impl : mat) (model : int -> int -> float) (scale : float) =
+let compare_block r (what : String.t) (impl : mat) (model : int -> int -> float) (scale : float) =
   for i = 0 to impl.rows - 1 do
     for j = 0 to impl.cols - 1 do
       let v = impl.d.(i * impl.cols + j) in
